@@ -1,2 +1,4 @@
-"""Reasons for properties not claimed (property id -> reason)."""
+"""READY: properties whose check is finished and registered in MANIFEST.json.
+NOT_APPLICABLE: reasons for properties not claimed (property id -> reason)."""
+READY = {"C01", "C02", "C03", "C04", "C05", "C06"}
 NOT_APPLICABLE = {}
